@@ -126,6 +126,7 @@ class BlobReplayer:
     def __init__(self, consts, workdir, opts=None):
         self.flavour = consts['Flavour']
         self.keep_old = bool(consts.get('KeepOld'))
+        self.spb_per_serial = bool(consts.get('SpbPerSerial', True))
         self.nblob = consts['NBlob']
         self.dir = workdir
         self.opts = opts or {}
@@ -334,14 +335,14 @@ class BlobReplayer:
         self._learn_oids(self._newb)
         files, stray = self._walk_blobs(self.blob_dir)
         self.stray = max(self.stray, stray)
-        tmp = []
+        tmp, sp = [], []
         tdir = os.path.join(self.blob_dir, 'tmp')
         for path, dirs, names in os.walk(tdir):
             for n in names:
                 with open(os.path.join(path, n), 'rb') as f:
-                    tmp.append(hashlib.md5(f.read()).hexdigest())
-        self.tmp_seen = max(self.tmp_seen, len(tmp))
-        real = {'files': files, 'tmp': tuple(sorted(tmp)),
+                    (tmp if path == tdir else sp).append(hashlib.md5(f.read()).hexdigest())
+        self.tmp_seen = max(self.tmp_seen, len(tmp) + len(sp))
+        real = {'files': files, 'tmp': tuple(sorted(tmp)), 'sp': tuple(sorted(sp)),
                 'dirty': frozenset((self.b_of.get(o, 'oid-' + o.hex()), self.T.model(t)) for o, t in self.st.dirty_oids),
                 'latest': self.read_latest()}
         if self.flavour == 'mixin':
@@ -387,9 +388,9 @@ class BlobReplayer:
                # working copies of blobs that belong to the connection, savepoint files; `leak`: files nobody owns
                # any more (whether such a file is still there depends on when Python frees the Blob object: a
                # stale weak-reference callback of the same object may remove it - not judged, DESIGN notes on C13)
-               'tmp': (tuple(sorted([self.md5(c) for b, c in _fn(con['work']).items() if b not in con['newb']] +
-                                    [self.md5(c) for c in _fn(con['spfile']).values()])),
-                       tuple(sorted(self.md5(c) for c in s['leak'])))}
+               'tmp': (tuple(sorted(self.md5(c) for b, c in _fn(con['work']).items() if b not in con['newb'])),
+                       tuple(sorted(self.md5(c) for c in s['leak']))),
+               'sp': tuple(sorted(self.md5(c) for c in _fn(con['spfile']).values()))}
         if self.flavour == 'mixin':
             exp['old'] = {k: (self.md5(v['c']), v['ro']) for k, v in _fn(s['old']).items()}
         snap = {t: _row(r) for t, r in _fn(s['osnap']).items()}
@@ -414,9 +415,16 @@ class BlobReplayer:
         owned, leak = Counter(exp['tmp'][0]), Counter(exp['tmp'][1])
         have = Counter(real['tmp'])
         if owned - have:
-            out.append('tmp: working/savepoint files missing: %s' % sorted((owned - have).elements()))
+            out.append('tmp: working files missing: %s' % sorted((owned - have).elements()))
         if have - owned - leak:
             out.append('tmp: files the specification does not know: %s' % sorted((have - owned - leak).elements()))
+        # savepoint files (tmp/savepoints*/): as the code is there is one per (oid, serial); a store that keeps one
+        # per record may hold superseded ones while the transaction lasts
+        want, got = Counter(exp['sp']), Counter(real['sp'])
+        if want - got:
+            out.append('tmp: savepoint files missing: %s' % sorted((want - got).elements()))
+        if got - want and (self.spb_per_serial or not state['con']['spon']):
+            out.append('tmp: savepoint files the specification does not know: %s' % sorted((got - want).elements()))
         self.leaks_seen = max(getattr(self, 'leaks_seen', 0), sum((have - owned).values()))
         return out
 
